@@ -6,24 +6,36 @@
 (* range on the grid, operation id) and the maximum supported version;     *)
 (* each `vreq` event is one request: method, class of the version header,  *)
 (* the grid version it names (0 if none), the status received, the Allow   *)
+(* values received and the operation that answered ("" if none).  Since    *)
+(* round f the reset also names the version *policy* (header / default-    *)
+(* supplying Dynamic policy / Unversioned) and whether the server could be *)
+(* built at all (an unversioned server refuses versioned routes).          *)
+(* --                                                                      *)
 (* values received and the operation that answered ("" if none).           *)
 (***************************************************************************)
 EXTENDS Naturals, Sequences, FiniteSets, TLC, Json, IOUtils, Versions
 
 Rec == ndJsonDeserialize(IOEnv.TRACE)
-VARIABLES l, table, maxv
-tvars == <<l, table, maxv>>
-TraceInit == l = 1 /\ table = <<>> /\ maxv = 0
+VARIABLES l, table, maxv, policy, dflt, built
+tvars == <<l, table, maxv, policy, dflt, built>>
+TraceInit == l = 1 /\ table = <<>> /\ maxv = 0 /\ policy = "header" /\ dflt = 0 /\ built = FALSE
 
 Entries == {table[i] : i \in DOMAIN table}
-ServedAt(m, v) == {e \in Entries : e.m = m /\ InRange(e.r, v)}
-MethodsAt(v) == {e.m : e \in {x \in Entries : InRange(x.r, v)}}
+ServedAt(m, v) == {e \in Entries : e.m = m /\ RoutedInRange(e.r, v)}
+MethodsAt(v) == {e.m : e \in {x \in Entries : RoutedInRange(x.r, v)}}
 SetOf(seq) == {seq[i] : i \in DOMAIN seq}
 
+\* `reset`: one server build.  The event carries the policy, the route table,
+\* the maximum supported and default versions and whether the build succeeded;
+\* the build must succeed exactly when Versions!BuildAccepted says so.
 Consume(e) ==
-  \/ /\ e.ev = "reset" /\ table' = e.table /\ maxv' = e.max
+  \/ /\ e.ev = "reset"
+     /\ e.policy \in Policies
+     /\ e.built = BuildAccepted(e.policy, {e.table[i].r : i \in DOMAIN e.table})
+     /\ table' = e.table /\ maxv' = e.max /\ policy' = e.policy /\ dflt' = e.dflt /\ built' = e.built
   \/ /\ e.ev = "vreq"
-     /\ LET out == HeaderOutcome(e.class, e.v, maxv) IN
+     /\ built                                               \* requests only reach a server that was built
+     /\ LET out == PolicyOutcome(policy, e.class, e.v, maxv, dflt) IN
         IF out.k = "reject"
         THEN /\ e.status >= 400 /\ e.status <= 499          \* C05: refused with a 4xx ...
              /\ e.op = ""                                   \*      ... and no handler ran
@@ -38,17 +50,17 @@ Consume(e) ==
                      ELSE /\ e.status = 405
                           /\ SetOf(e.allow) = MethodsAt(out.v)   \* C04: Allow bytes on the wire
                           /\ Len(e.allow) = Cardinality(MethodsAt(out.v))
-     /\ UNCHANGED <<table, maxv>>
+     /\ UNCHANGED <<table, maxv, policy, dflt, built>>
   \/ /\ e.ev \in {"accept", "req_start", "version_ok", "route_ok", "extract_ok", "handler_call", "handler_return",
                   "spawn", "task_exit", "resp_ready", "req_cancelled", "close_requested", "accept_exit",
                   "graceful_done", "waitgroup_done"}
-     /\ UNCHANGED <<table, maxv>>
+     /\ UNCHANGED <<table, maxv, policy, dflt, built>>
 
 TraceNext == l <= Len(Rec) /\ Consume(Rec[l]) /\ l' = l + 1
 TraceSpec == TraceInit /\ [][TraceNext]_tvars
 
 ASSUME TLCSet(1, 0) /\ TLCSet(2, <<>>)
-Track == IF l > TLCGet(1) THEN TLCSet(1, l) /\ TLCSet(2, [table |-> table, max |-> maxv]) ELSE TRUE
+Track == IF l > TLCGet(1) THEN TLCSet(1, l) /\ TLCSet(2, [table |-> table, max |-> maxv, policy |-> policy, dflt |-> dflt, built |-> built]) ELSE TRUE
 Accepted ==
   IF TLCGet(1) = Len(Rec) + 1 THEN TRUE
   ELSE /\ PrintT(<<"REJECT", TLCGet(1)>>)
